@@ -300,6 +300,41 @@ def c02_cli(ctx, broken):
             "samples": samples}
 
 
+def c02_deep_cli(ctx, broken):
+    """sample permutation on the parallel build path: `build_and_merge` in-process (one process per
+    case) with enough samples and threads for a split tree of depth 3, for the samples in order and
+    rotated; the rotated table must be the column-rotated table (and both equal the model's)"""
+    rnd = random.Random(ctx.seed * 2750159 + 17)
+    thorough = ctx.tier == "thorough"
+    evals = nontriv = 0
+    for (n, threads) in ([(72, 8), (90, 16), (40, 4), (71, 8)] if thorough else [(72, 8), (25, 2)]):
+        k = rnd.choice([9, 15, 21])
+        base = rand_genome(rnd, 60)
+        smp = [mutate(rnd, base, rnd.randint(0, 3)) for _ in range(n)]
+        rot = rnd.randrange(1, n)
+        order = [(i + rot) % n for i in range(n)]
+        tables = []
+        for lst in (smp, [smp[i] for i in order]):
+            line = f"bam w=64 k={k} rc=1 threads={threads} samples={'|'.join(lst)}"
+            r = core.run_impl(ctx, [line], "c02bam")[0]
+            m, s = core.run_model(ctx, [line])[0]
+            evals += 1
+            if r != m or r != s:
+                return {"summary": {"evaluations": evals, "nontrivial": nontriv},
+                        "violation": {"kind": "c02-deep", "what": "build_and_merge differs from the model table", "threads": threads, "nsamples": n, "k": k,
+                                      "model_case": line, "code": r[:400], "model": m[:400]}}
+            rows = dict(x.split(":") for x in r.split(";rows=")[1].split(",")) if ";rows=" in r and r.split(";rows=")[1] != "~" else {}
+            tables.append(rows)
+        want = {key: "".join(cells[i] for i in order) for key, cells in tables[0].items()}
+        if want != tables[1]:
+            return {"summary": {"evaluations": evals, "nontrivial": nontriv},
+                    "violation": {"kind": "c02-deep", "what": "permuting the samples did not just permute the columns (parallel build)", "threads": threads, "nsamples": n, "k": k, "rotation": rot, "samples": smp}}
+        nontriv += 1
+    return {"summary": {"evaluations": evals, "nontrivial": nontriv,
+                        "what": "sample rotation on the parallel build path (split tree depth 2-3, 25-90 samples, 2-16 threads) in-process vs model and vs the column-rotated table"},
+            "samples": []}
+
+
 def run_ok(args, cwd):
     code, out, err = ska(args, cwd)
     return code, out, err
@@ -700,7 +735,13 @@ def c19_cli(ctx, broken):
             bit = rnd.randrange(8)
             data[pos] ^= 1 << bit
             what = f"flip {pos}.{bit}"
-        bad = os.path.join(d, "bad.skf")
+        # usually `bad.skf`; sometimes a name without the suffix that has an intact, different
+        # `<name>.skf` next to it (a loader must not fall back to the neighbour)
+        if fi % 4 == 1:
+            bad = os.path.join(d, "sib")
+            shutil.copyfile(good2, os.path.join(d, "sib.skf"))
+        else:
+            bad = os.path.join(d, "bad.skf")
         open(bad, "wb").write(bytes(data))
         for name in cmds:
             code, res = run_cmd(name, bad)
@@ -758,6 +799,118 @@ def make_reads(rnd, genome, coverage, err, rlen):
             s = s[:q] + "N" + s[q + 1:]
         reads[i % 2].append(s + ":" + qual_letters(rnd, L))
     return reads
+
+
+def c16_cli(ctx, broken):
+    """the packed arithmetic through the command line, per integer width: every path of the lib.rs
+    dispatch that instantiates the split k-mer iterator (build from sequence files, build from reads
+    with a numeric and an automatic --min-count, cov, map and weed references) for k on both sides
+    of the 64/128-bit boundary; the windows of one sequence must come out the same through all of them"""
+    rnd = random.Random(ctx.seed * 49979693 + 23)
+    thorough = ctx.tier == "thorough"
+    evals = nontriv = 0
+    for k in ([31, 33, 35, 41, 59, 63] if thorough else [31, 35, 63]):
+        d = fresh_dir(ctx, "c16cli")
+        seq = rand_genome(rnd, 3 * k + rnd.randint(0, 40))
+        q = rnd.randrange(k + 1, len(seq) - k - 1)
+        seq = seq[:q] + "N" + seq[q + 1:]
+        fa = os.path.join(d, "s.fa")
+        write_fasta(fa, [seq])
+        line = f"build w={64 if k <= 31 else 128} k={k} rc=1 recs={seq}"
+        m, sp = core.run_model(ctx, [line])[0]
+        want = dict_of(sp)
+        # 1. build from the FASTA
+        info = build_and_nk(ctx, d, k, True, [fa])
+        evals += 1
+        got = {key: b[0] for key, b in info.get("rows", {}).items()} if info["status"] == "ok" else info["status"]
+        if got != want:
+            return {"summary": {"evaluations": evals, "nontrivial": nontriv},
+                    "violation": {"kind": "c16-cli", "what": "ska build (sequence file) differs from the window specification", "k": k, "seq": seq}}
+        # 2. the same sequence as reads (each k-mer seen twice, min-count 2)
+        fq1, fq2 = os.path.join(d, "r1.fastq"), os.path.join(d, "r2.fastq")
+        for fp in (fq1, fq2):
+            open(fp, "w").write(f"@r\n{seq}\n+\n{'I' * len(seq)}\n")
+        lst = os.path.join(d, "l.tsv")
+        open(lst, "w").write(f"s\t{fq1}\t{fq2}\n")
+        code, out, err = ska(["build", "-f", lst, "-k", str(k), "--min-count", "2", "-o", os.path.join(d, "r")], d)
+        evals += 1
+        info2 = parse_nk(ska(["nk", "--full-info", os.path.join(d, "r.skf")], d)[1]) if code == 0 else {"rows": {}}
+        got2 = {key: b[0] for key, b in info2.get("rows", {}).items()}
+        if code != 0 or got2 != want:
+            return {"summary": {"evaluations": evals, "nontrivial": nontriv},
+                    "violation": {"kind": "c16-cli", "what": "ska build (reads, --min-count 2) differs from the window specification", "k": k, "seq": seq, "stderr": err[-300:]}}
+        # 3. mapping the sequence onto itself: every window matches, no gap except around the N
+        code, out, err = ska(["map", fa, os.path.join(d, "out.skf")], d)
+        evals += 1
+        aln = [l for l in out.splitlines() if not l.startswith(">")]
+        h = (k - 1) // 2
+        covered = set()
+        for j in range(len(seq) - k + 1):
+            if "N" not in seq[j:j + k]:
+                covered.update(range(j, j + k))
+        wantaln = "".join(seq[i] if i in covered else "-" for i in range(len(seq)))
+        if code != 0 or not aln or aln[0] != wantaln:
+            return {"summary": {"evaluations": evals, "nontrivial": nontriv},
+                    "violation": {"kind": "c16-cli", "what": "ska map of a sequence onto itself is not the union of its valid windows", "k": k, "seq": seq, "observed": (aln[0] if aln else None), "expected": wantaln}}
+        nontriv += 1
+    r = auto_mincount_cli(ctx, broken)
+    r["summary"]["evaluations"] += evals
+    r["summary"]["nontrivial"] += nontriv
+    r["summary"]["what"] = "split k-mers of one sequence through ska build (FASTA), ska build (reads), ska map onto itself, per width; " + r["summary"].get("what", "")
+    return r
+
+
+def auto_mincount_cli(ctx, broken):
+    """`ska build --min-count auto` (k-mer counting for the cutoff happens in a dispatch branch of its
+    own, per integer width): the result must be the build with the cutoff `ska cov` reports for the
+    same two files given explicitly, for k <= 31 and k >= 35, strands merged and single"""
+    rnd = random.Random(ctx.seed * 32452843 + 59)
+    thorough = ctx.tier == "thorough"
+    evals = nontriv = 0
+    combos = [(41, True), (31, False), (63, False), (35, True)] + ([(21, True), (33, False), (51, True), (41, False)] if thorough else [])
+    for (k, rc) in combos:
+        d = fresh_dir(ctx, "autocli")
+        genome = rand_genome(rnd, 1500)
+        paths = []
+        for si in range(2):
+            r1, r2 = make_reads(rnd, mutate(rnd, genome, si), rnd.uniform(25, 45), 0.01, 100)
+            for tag, reads in (("1", r1), ("2", r2)):
+                fp = os.path.join(d, f"s{si}_{tag}.fastq")
+                with open(fp, "w") as f:
+                    for i, x in enumerate(reads):
+                        sq, q = x.split(":")
+                        f.write(f"@r{i}\n{sq}\n+\n{''.join(chr(ord(ch) - 65 + 33) for ch in q)}\n")
+                paths.append(fp)
+        lst = os.path.join(d, "list.tsv")
+        open(lst, "w").write(f"s0\t{paths[0]}\t{paths[1]}\ns1\t{paths[2]}\t{paths[3]}\n")
+        strand = [] if rc else ["--single-strand"]
+        # ska cov ignores base qualities: so must the two builds
+        noq = ["--qual-filter", "no-filter"]
+        code_a, out, err_a = ska(["build", "-f", lst, "-k", str(k), "--min-count", "auto", "-o", os.path.join(d, "a")] + strand + noq, d)
+        # the cutoff is fitted on the forward files of the first two samples
+        code_c, out, err_c = ska(["cov", paths[0], paths[2], "-k", str(k)] + strand, d)
+        evals += 1
+        mcut = re.search(r"Estimated cutoff\t(\d+)", err_c)
+        if code_c != 0 or not mcut:
+            if code_a == 0:
+                return {"summary": {"evaluations": evals, "nontrivial": nontriv},
+                        "violation": {"kind": "auto-mincount", "what": "ska cov cannot fit these reads but build --min-count auto succeeded", "k": k, "rc": rc}}
+            continue
+        if code_a != 0:
+            return {"summary": {"evaluations": evals, "nontrivial": nontriv},
+                    "violation": {"kind": "auto-mincount", "what": "build --min-count auto failed although ska cov fits the same files", "k": k, "rc": rc, "stderr": err_a[-400:]}}
+        cut = mcut.group(1)
+        code_b, out, err_b = ska(["build", "-f", lst, "-k", str(k), "--min-count", cut, "-o", os.path.join(d, "b")] + strand + noq, d)
+        ta = nk_table(parse_nk(ska(["nk", "--full-info", os.path.join(d, "a.skf")], d)[1]))
+        tb = nk_table(parse_nk(ska(["nk", "--full-info", os.path.join(d, "b.skf")], d)[1]))
+        nontriv += 1
+        if code_b != 0 or ta != tb:
+            return {"summary": {"evaluations": evals, "nontrivial": nontriv},
+                    "violation": {"kind": "auto-mincount", "what": "build --min-count auto differs from the build with the cutoff ska cov reports for the same files",
+                                  "k": k, "rc": rc, "cutoff": cut, "kmers_auto": len(ta[1]), "kmers_explicit": len(tb[1])}}
+    return {"summary": {"evaluations": evals, "nontrivial": nontriv,
+                        "what": "ska build --min-count auto vs ska cov cutoff + explicit --min-count, k in {21..63} on both sides of the 64/128-bit boundary, both strand modes"},
+            "samples": []}
 
 
 def c20_cli(ctx, broken):
@@ -830,9 +983,12 @@ def c20_cli(ctx, broken):
     #    each) replicated so that the multiplicity histogram has bins of exactly 49 / 50 / 51
     npairs = 40 if thorough else 6
     for it in range(npairs):
-        k = rnd.choice([15, 21, 31, 33])
+        # both integer widths and both strand modes in every run (the Cov dispatch of lib.rs has one
+        # branch per width), with and without -v
+        k = [33, 15, 41, 31, 33, 21][it % 6] if it < 6 else rnd.choice([15, 21, 31, 33, 41, 63])
         w = 64 if k <= 31 else 128
-        rc = rnd.random() < 0.7
+        rc = (it % 3 != 2) if it < 6 else (rnd.random() < 0.7)
+        verbose = (it % 2 == 1)
         if it % 2 == 1:
             nb = rnd.randint(4, 12)
             bins = [rnd.choice([49, 50, 51, 120, 0, 300]) for _ in range(nb)]
@@ -882,7 +1038,7 @@ def c20_cli(ctx, broken):
                     f.write(f"@r{i}\n{s}\n+\n{''.join(chr(ord(ch) - 65 + 33) for ch in q)}\n")
         fq(os.path.join(d, "a.fastq"), r1)
         fq(os.path.join(d, "b.fastq"), r2)
-        code, out, errtxt = ska(["cov", os.path.join(d, "a.fastq"), os.path.join(d, "b.fastq"), "-k", str(k)] + ([] if rc else ["--single-strand"]), d)
+        code, out, errtxt = ska((["-v"] if verbose else []) + ["cov", os.path.join(d, "a.fastq"), os.path.join(d, "b.fastq"), "-k", str(k)] + ([] if rc else ["--single-strand"]), d)
         evals += 1
         if (code == 0) != (r.get("fit") == "ok"):
             return viol("CLI and library disagree on whether the fit succeeded", k=k, stderr=errtxt[-300:])
@@ -984,7 +1140,7 @@ def c03_cli(ctx, broken):
         code, out, err = ska(args, d)
         if code != 0:
             return {"summary": {"evaluations": evals, "nontrivial": nontriv}, "violation": {"kind": "c03-family", "what": "build failed", "stderr": err[-300:], "k": k, "threads": threads, "family": seqs}}
-        code, out, err = ska(["align", os.path.join(d, "x.skf"), "--min-freq", "1", "--threads", str(threads)], d)
+        code, out, err = ska_out(["align", os.path.join(d, "x.skf"), "--min-freq", "1", "--threads", str(threads)], d, tries)
         evals += 1
         if code != 0:
             return {"summary": {"evaluations": evals, "nontrivial": nontriv}, "violation": {"kind": "c03-family", "what": "align failed", "stderr": err[-300:], "k": k, "family": seqs}}
@@ -1536,13 +1692,21 @@ def ska_out(args, d, style, extra=None):
     if style % 2 == 0:
         return ska(args, d)
     outp = os.path.join(d, f"out_{style}.txt")
-    if os.path.exists(outp):
-        os.remove(outp)
+    # the output file already exists and is long: the new result must replace it, not overlay it
+    open(outp, "w").write(">stale\n" + "STALE-CONTENT-OF-AN-EARLIER-RUN\tx\ty\t1\t2\n" * 4000)
     code, out, err = ska(args + ["-o", outp], d)
     text = open(outp).read() if os.path.exists(outp) else ""
     if out.strip():
         text = "STDOUT-NOT-EMPTY\n" + out + text
     return code, text, err
+
+
+def out_prefix(d, stem, style):
+    """an output prefix for merge / delete and the file it must produce: plain, with dots in the
+    name (`.skf` is appended, nothing is replaced), or already ending in .skf"""
+    name = [stem, stem + ".part.1", stem + ".skf", stem + ".v2.final"][style % 4]
+    pref = os.path.join(d, name)
+    return pref, (pref if name.endswith(".skf") else pref + ".skf")
 
 
 def hist_via_cli(ctx, line):
@@ -1567,18 +1731,24 @@ def hist_via_cli(ctx, line):
                     wo = w
                 other = os.path.join(d, f"other{step}.skf")
                 core.run_impl(ctx, [f"mkskf w={wo} k={ok_} rc={orc} table={f[1]} out={other}"], "mk")
-                code, out, err = ska(["merge", cur, other, "-o", os.path.join(d, f"m{step}")], d)
+                pref, want = out_prefix(d, f"m{step}", blank_style + step)
+                code, out, err = ska(["merge", cur, other, "-o", pref], d)
                 if code == 0:
-                    os.replace(os.path.join(d, f"m{step}.skf"), cur)
+                    if not os.path.exists(want):
+                        return f"step{step}:output-not-at-{os.path.basename(want)}"
+                    os.replace(want, cur)
             elif f[0] == "mergen":
                 others = []
                 for i, t in enumerate(f[1].split("&")):
                     other = os.path.join(d, f"other{step}_{i}.skf")
                     core.run_impl(ctx, [f"mkskf w={w} k={k} rc={kv['rc']} table={t} out={other}"], "mk")
                     others.append(other)
-                code, out, err = ska(["merge", cur] + others + ["-o", os.path.join(d, f"m{step}")], d)
+                pref, want = out_prefix(d, f"m{step}", blank_style + step)
+                code, out, err = ska(["merge", cur] + others + ["-o", pref], d)
                 if code == 0:
-                    os.replace(os.path.join(d, f"m{step}.skf"), cur)
+                    if not os.path.exists(want):
+                        return f"step{step}:output-not-at-{os.path.basename(want)}"
+                    os.replace(want, cur)
             elif f[0] == "delete":
                 names = [] if f[1] == "~" else f[1].split("+")
                 names_style += 1
@@ -1595,9 +1765,22 @@ def hist_via_cli(ctx, line):
                             lines.append("")                                      # leading blank line
                         lines.append(nm + ("\tignored_second_field" if blank_style == 4 else ""))
                     open(nf, "w").write("\n".join(lines) + ("\n\n" if blank_style == 5 else "\n"))
-                    code, out, err = ska(["delete", "-s", cur, "-f", nf], d)
+                    dargs = ["-f", nf]
                 else:
-                    code, out, err = ska(["delete", "-s", cur] + names, d)
+                    dargs = names
+                if names:
+                    if (blank_style + step) % 3 == 0:
+                        # to another file: the input stays as it is
+                        pref, want = out_prefix(d, f"del{step}", blank_style + step + 1)
+                        code, out, err = ska(["delete", "-s", cur, "-o", pref] + dargs, d)
+                        if code == 0:
+                            if not os.path.exists(want):
+                                return f"step{step}:output-not-at-{os.path.basename(want)}"
+                            if open(cur, "rb").read() != before:
+                                return f"step{step}:input-changed-although-o-given"
+                            os.replace(want, cur)
+                    else:
+                        code, out, err = ska(["delete", "-s", cur] + dargs, d)
             elif f[0] == "weed":
                 args = ["weed", cur]
                 if f[1] != "~":
@@ -1617,7 +1800,18 @@ def hist_via_cli(ctx, line):
                     args.append("--ambig-mask")
                 if f[7] == "1":
                     args.append("--no-gap-only-sites")
-                code, out, err = ska(args, d)
+                if (blank_style + step) % 3 == 1:
+                    # to another file (weed takes the name literally): the input stays as it is
+                    wout = os.path.join(d, f"weeded{step}.out.v1")
+                    code, out, err = ska(args + ["-o", wout], d)
+                    if code == 0:
+                        if not os.path.exists(wout):
+                            return f"step{step}:output-not-at-{os.path.basename(wout)}"
+                        if open(cur, "rb").read() != before:
+                            return f"step{step}:input-changed-although-o-given"
+                        os.replace(wout, cur)
+                else:
+                    code, out, err = ska(args, d)
                 if code != 0 and "no valid sequence" in err:
                     dump, _ = nk_dump(d, cur)
                     same = open(cur, "rb").read() == before
@@ -1839,7 +2033,10 @@ def make_hist_cli(prop, nquick, nthorough, gen_prop=None):
         cases = [c for c in core.gen_cases(gen_prop or prop, "quick", ctx.seed + 4242) if c.startswith("hist ")]
         rnd = random.Random(ctx.seed * 7 + 1)
         rnd.shuffle(cases)
-        cases = [c for c in cases if "rawdist" not in c or True][:n]
+        # both integer widths (the lib.rs dispatch has one branch per width)
+        wide = [c for c in cases if " w=128 " in c]
+        narrow = [c for c in cases if " w=64 " in c]
+        cases = wide[:n // 2] + narrow[:n - n // 2]
         # rawdist is an in-process observer only
         cases = [re.sub(r";rawdist/\d+", "", c) for c in cases]
         model = core.run_model(ctx, cases)
